@@ -3,6 +3,7 @@ package sim
 import (
 	"errors"
 	"fmt"
+	"sync"
 
 	"github.com/jmsadair/raft"
 	"github.com/jmsadair/raft/verifshim/vsched"
@@ -38,6 +39,10 @@ type Msg struct {
 	Dups     int
 	sender   *vsched.Task
 	reqCanon string
+	// wire orders the accesses of sender and receiver for the race detector:
+	// a message transfer is a real happens-before edge (the network), which the
+	// invisible scheduler hand-offs would otherwise hide.
+	wire sync.Mutex
 	handler  *vsched.Task
 }
 
@@ -94,7 +99,9 @@ func (t *SimTransport) send(kind, address string, fill func(m *Msg)) *Msg {
 	m := &Msg{ID: fmt.Sprintf("%s#%d", key, n.seq[key]), From: t.node, FromInc: t.inc, To: to, Kind: kind, Order: n.order, sender: vsched.Cur(), SentAt: n.C.Tick}
 	n.seq[key]++
 	n.order++
+	m.wire.Lock()
 	fill(m)
+	m.wire.Unlock()
 	if !t.running || to < 0 {
 		m.State = MDone
 		m.Err = errNet
@@ -110,6 +117,8 @@ func (t *SimTransport) send(kind, address string, fill func(m *Msg)) *Msg {
 	m.sender.Tag = m.ID
 	vsched.Block("net", m, func() bool { return m.Replied })
 	m.sender.Tag = ""
+	m.wire.Lock()
+	m.wire.Unlock()
 	return m
 }
 
@@ -188,6 +197,8 @@ func (n *Network) runHandler(m *Msg, dup bool) {
 	var task *vsched.Task
 	task = vsched.Spawn(m.To, name, func() {
 		var err error
+		m.wire.Lock()
+		defer m.wire.Unlock()
 		switch m.Kind {
 		case "AE":
 			req, _ := raft.VerifWireAppendEntriesRequest(m.AE)
